@@ -29,7 +29,13 @@ def efun(x):
     Returns:
         float: x/[exp(x)-1]
     """
-    return x / (save_exp(x) - 1.0)
+    # `x / (exp(x) - 1)` is 0/0 at `x=0`: use the series expansion there. The inner
+    # `where` keeps the gradient finite.
+    is_small = jnp.abs(x) < 1e-5
+    safe_x = jnp.where(is_small, 1.0, x)
+    return jnp.where(
+        is_small, 1.0 - x / 2.0 + x**2 / 12.0, safe_x / (save_exp(safe_x) - 1.0)
+    )
 
 
 class Leak(Channel):
